@@ -15,6 +15,73 @@ DEVS = ["DedupHashOnly", "FragHashOnly", "InFlightCopyDropped"]
 PROPS = ("NoError", "DataIntegrity", "Sharing", "NoLeak", "FragTableSane")
 
 
+def hash_table_stage(work, rep, ev, tier):
+    """spec/HashTable.tla: the open-addressing table behind fragment de-duplication, transcribed (insert / search / growth); every insertion
+    sequence of <= 5 (6) keys over 7 keys whose hashes collide in start slot and step for the first table sizes, on the real table (ASan):
+    every inserted key is found, nothing else is, and the slots are the model's."""
+    KEYS = "{<<0, 1>>, <<0, 2>>, <<35, 1>>, <<5, 1>>, <<15, 1>>, <<7, 1>>, <<12, 1>>}"
+    ALL = [(0, 1), (0, 2), (35, 1), (5, 1), (15, 1), (7, 1), (12, 1)]
+    M = 5 if tier == "quick" else 6
+    C = {"MaxIns": M, "Emit": False, "SearchStopsAtOtherHash": False, "ReinsertNoProbe": False}
+    INV = ["AllFound", "NothingElse", "CountRight", "RoomLeft"]
+    cfg = work + "/ht.cfg"
+    write_cfg(cfg, spec="Spec", constants=C, defs={"Keys": KEYS}, invariants=INV, deadlock=False)
+    r = run_tlc("HashTable", cfg, workers=8, timeout=1500, heap="8g")
+    ev.tlc(r, "HashTable MaxIns=%d" % M)
+    if not r["ok"]:
+        print("MODEL-FAILURE: HashTable violates %s" % r["violated"])
+        return None
+    for dev in ("SearchStopsAtOtherHash", "ReinsertNoProbe"):
+        write_cfg(cfg, spec="Spec", constants=dict(C, **{dev: True}), defs={"Keys": KEYS}, invariants=INV, deadlock=False)
+        r = run_tlc("HashTable", cfg, workers=4, timeout=600)
+        ev.tlc(r, "dev HashTable " + dev)
+        if not r["violated"]:
+            print("SELF-CHECK-FAILED: HashTable deviation %s without counterexample" % dev)
+            return None
+    write_cfg(cfg, spec="Spec", constants=dict(C, Emit=True), defs={"Keys": KEYS}, invariants=["EmitOK"], deadlock=False)
+    r = run_tlc("HashTable", cfg, workers=8, timeout=1500, heap="8g")
+    cases = bpbind.parse_emitted(r["out"])
+    if len(cases) != 7 ** M:
+        print("SELF-CHECK-FAILED: HashTable emitted %d insertion sequences" % len(cases))
+        return None
+    binp = work + "/replay_hashtable"
+    if not build.compile_harness(VERIF + "/harness/replay_hashtable.c", binp, variant="asan"):
+        raise RuntimeError("harness build failed")
+
+    def do(i):
+        c = cases[i]
+        args = ["%d:%d" % (k[0], k[1]) for k in c["ins"]] + ["--"] + ["%d:%d" % k for k in ALL]
+        q = subprocess.run([binp] + args, capture_output=True, text=True, timeout=60, env=dict(os.environ, ASAN_OPTIONS="detect_leaks=1"))
+        return i, q.returncode, q.stdout, q.stderr
+    n, seen, drift = 0, set(), 0
+    with ThreadPoolExecutor(16) as ex:
+        for i, rc, out, err in ex.map(do, range(len(cases))):
+            n += 1
+            c = cases[i]
+            what = None
+            if "ERROR: AddressSanitizer" in err or "LeakSanitizer" in err:
+                what = ("hashtable-memory", err[err.find("ERROR:"):][:160])
+            elif rc != 0:
+                what = ("hashtable-crash", "exit %d" % rc)
+            else:
+                real = json.loads(out.strip().split("\n")[-1])
+                inserted = {tuple(k) for k in c["ins"]}
+                wrong = [f for f in real.get("found", []) if f[2] != ((f[0], f[1]) in inserted)]
+                if "insert_failed" in real or wrong:
+                    what = ("hashtable-lookup", "after inserting %s: %s" % (c["ins"], "insert refused" if "insert_failed" in real else
+                                                                            "keys answered wrongly (hash, id, found): %s" % wrong[:4]))
+                elif real["size"] != c["size"] or real["entries"] != c["entries"] or [list(x) for x in real["slots"]] != [list(x) for x in c["slots"]]:
+                    drift += 1
+            if what and what[0] not in seen:
+                seen.add(what[0])
+                rep.violation(what[0], what[1], data={"ins": c["ins"]})
+    if drift:
+        print("SPEC-DRIFT (no alarm): %d tables differ in slot layout from HashTable.tla although every key is answered correctly" % drift)
+    ev.set("hash_table_sequences_replayed", n)
+    ev.set("hash_table_layout_drift", drift)
+    return n
+
+
 def bp_api_stage(work, rep, ev, tier):
     """spec/BlockProcApi.tla: ANY sequence of front end calls (legal or not) has a specified result; every such sequence of <= 4 (5: sample)
     calls on the real block processor (ASan, 2 workers): whatever was begun, appended and ended reads back intact from the output, every
@@ -279,6 +346,11 @@ def run(tier):
                     if len({(x["start"], x["frag_idx"], x["frag_off"], tuple(w[2] for w in x["blocks"])) for x in (ia, ib, i0)}) != 1:
                         rep.violation("dedup-not-shared", "%d-bit checksum, %s: identical files do not share storage" % (bits, comp),
                                       artefact=out, data={"bits": bits})
+    hn = hash_table_stage(work, rep, ev, tier)
+    if hn is None:
+        ev.write()
+        return 2
+    total += hn
     an = bp_api_stage(work, rep, ev, tier)
     if an is None:
         ev.write()
